@@ -297,6 +297,10 @@ def random_field(ctx, tmp, spec=None, ext=None, large=False):
     tol = float(gen.pick(rng, TOLS))
     bc = _rand_bc(rng, spec.dim_names)
     boxes, regions = gen.rand_subregions(rng, spec, kmax=3)
+    if regions and rng.random() < 0.2:
+        # subregion names taken from a numpy array of strings (numpy.str_ keys)
+        regions = {np.str_(k): v for k, v in regions.items()}
+        ctx.event("subregion_names_as_numpy_strings")
     region = spec.region(tolerance_factor=tol)
     if rng.random() < 0.2:
         # dimension names and units as numpy strings (accepted by the setters)
